@@ -371,3 +371,13 @@ spec("C13",
      classify=classify_default,
      assumptions=["nested RemapAffine directly under RemapAffine cannot be built through the builder API (remap_affine flattens) and is not generated"],
      )
+
+spec("C16",
+     cmd="c16", count=dict(quick=900, thorough=20000),
+     vo_targets=["props/C16.vo"],
+     level="proof",
+     rule="each of the 26 shapes / transforms of fidget-shapes plus the three named planes (the first 29 cases cover every kind once, then uniformly random), random centres / radii / offsets / angles (90, 45, -30, 180, 10, 270 and perturbed) / unit axes / scale factors incl. negative and non-uniform, inputs drawn from sphere / box / circle primitives; Tree::from(shape) imported into a Context is compared node-for-node with the Coq builder imported into the Context model (incl. the f32 matrix products of nested affine transforms); 24 sample points per case against closed-form f64 geometry: negative exactly inside, T(s)(p) = s(T^-1 p), set algebra for CSG, named planes; distinct_nontrivial = distinct case lines",
+     classify=classify_default,
+     assumptions=["rotation matrices come from nalgebra::Rotation3::new (passed to the model as data; compared with Rodrigues' formula by the oracle)",
+                  "Blend is only checked where it must equal the union (radius 0 or shapes further apart than the radius)"],
+     )
